@@ -252,6 +252,23 @@ def r_cdata(ctx, rep, floor=15):
             else:
                 rep.violation("R-CDATA", base + "|cdata", loc(arm),
                               "in %s the match that accumulates Event::Text has no arm appending Event::CData: text stored as <![CDATA[..]]> reads back as an empty string" % fn.name)
+            # (c) every piece counts: no arm of the same match takes Text / CData events without appending them, and the
+            # appending arms are not guarded (a whitespace-only text node inside an element is content, not indentation)
+            swallow = None
+            for a3 in em["match"]["arms"]:
+                if _arm_event_variant(a3, em["wrapped"]) in ("Text", "CData"):
+                    l3 = {lid for _, lid in pat_bindings(a3["pat"])}
+                    if a3.get("guard") is not None and not a3.get("guard_from_body"):
+                        swallow = (a3, "is guarded")
+                        break
+                    if not (_appends_text(a3["body"], l3) or _assigns_text(a3["body"], l3)):
+                        swallow = (a3, "does not append its payload")
+                        break
+            if swallow:
+                rep.violation("R-CDATA", base + "|every-piece", loc(swallow[0]),
+                              "in %s an Event::Text / Event::CData arm of the text-accumulating match %s: some pieces of an element's text (a blank between two spans, a piece that looks like indentation) never reach the value" % (fn.name, swallow[1]))
+            else:
+                rep.holds("R-CDATA", base + "|every-piece", loc(arm), "every Text / CData arm of the match appends, unguarded")
     rep.floor("R-CDATA", floor, "text accumulating event matches")
 
 
